@@ -458,6 +458,9 @@ func TestTaint(t *testing.T) {
 		_ = c.ViewBind(fiber.Map{"vb": "V" + tok})
 		obs := vk.Observe(c, "lk")
 		c.Set("X-Own", tok)
+		// response helpers that build their value in pooled buffers
+		c.Links("http://example.com/list/"+strings.Repeat(tok, 8)+"?page=2", "next")
+		c.Attachment("report-" + tok + ".pdf")
 		if c.Query("redir") == "1" {
 			return c.Redirect().With("fk", "F"+tok, 40).To("/x")
 		}
